@@ -85,7 +85,7 @@ def write_saf(path, columns, ch_ids, fs, north_rot, eol="\n", ndat=None, ids_wri
     ndat = n if ndat is None else ndat
     lines = ["SESAME ASCII data format (saf) v. 1    (this line must not be modified)",
              f"SAMP_FREQ = {int(fs)}",
-             f"NDAT = {int(ndat)}"]
+             f"NDAT = {int(ndat):010d}" if rich_header else f"NDAT = {int(ndat)}"]     # the real example pads with zeros
     if rich_header:
         lines += ["START_TIME = 2021 11 22 13 31 10.000",
                   "SENSOR_TYPE = Velocity",
